@@ -74,6 +74,9 @@ func runE6(p *Program, sp *Spec, c *Collector) {
 	for _, pr := range t.Precede {
 		runPrecede(p, c, pr)
 	}
+	for _, cs := range t.ConsumeReset {
+		runConsumeReset(p, c, cs)
+	}
 }
 
 // ---------------------------------------------------------------------------------------------
@@ -1038,5 +1041,162 @@ func runPrecede(p *Program, c *Collector, pr PrecedeSpec) {
 	}
 	if n == 0 {
 		c.Ob(pr.Props, "E6.must-precede", "precede:"+pr.Func+" "+shortFn(pr.Callee), Undecided, pr.What+": no call to "+pr.Callee+" found in "+pr.Func, p.FuncPos(fn), false)
+	}
+}
+
+// ---------------------------------------------------------------------------------------------
+// (g) consume-and-reset: on every path of Func on which the effect happens, the pending flag is cleared as well.
+
+type ConsumeResetSpec struct {
+	Props  []string `json:"props"`
+	Func   string   `json:"func"`
+	Effect string   `json:"effect"` // store target name (store:<global> / storefield:<global>.<F>)
+	Reset  string   `json:"reset"`  // store:<global>
+	Value  string   `json:"value"`  // constant the reset assigns ("false", "\"\"" …)
+	What   string   `json:"what"`
+	Ignore []string `json:"ignore_callees"` // callees whose own effect is a different kind of record (one line of reason in the spec)
+}
+
+type crAn struct {
+	p    *Program
+	spec ConsumeResetSpec
+	memo map[*ssa.Function]int
+	prog map[*ssa.Function]bool
+}
+
+// states are bitsets over the four (effect, reset) combinations: bit (e<<1|r)
+func crApply(st int, f func(e, r int) (int, int)) int {
+	out := 0
+	for k := 0; k < 4; k++ {
+		if st&(1<<k) != 0 {
+			e, r := f(k>>1, k&1)
+			out |= 1 << (e<<1 | r)
+		}
+	}
+	return out
+}
+
+func (a *crAn) isResetValue(v ssa.Value) bool {
+	c, ok := v.(*ssa.Const)
+	if !ok {
+		return false
+	}
+	if c.Value == nil {
+		return a.spec.Value == "nil"
+	}
+	return c.Value.ExactString() == a.spec.Value
+}
+
+// summary: possible (effect, reset) outcomes of fn when entered in state (0,0).
+func (a *crAn) summary(fn *ssa.Function) int {
+	if v, ok := a.memo[fn]; ok {
+		return v
+	}
+	if a.prog[fn] || len(fn.Blocks) == 0 {
+		return 1 | 2 | 4 | 8
+	}
+	a.prog[fn] = true
+	defer delete(a.prog, fn)
+	nb := len(fn.Blocks)
+	in := make([]int, nb)
+	out := make([]int, nb)
+	in[0] = 1 // (0,0)
+	transfer := func(b *ssa.BasicBlock, st int) int {
+		for _, ins := range b.Instrs {
+			switch x := ins.(type) {
+			case *ssa.Store:
+				name := storeTargetName(a.p, x)
+				if name == a.spec.Effect {
+					st = crApply(st, func(e, r int) (int, int) { return 1, r })
+				}
+				if name == a.spec.Reset {
+					if a.isResetValue(x.Val) {
+						st = crApply(st, func(e, r int) (int, int) { return e, 1 })
+					} else {
+						st = crApply(st, func(e, r int) (int, int) { return e, 0 })
+					}
+				}
+			case *ssa.Call:
+				for _, cal := range a.p.ownCallees(x) {
+					skip := false
+					for _, ig := range a.spec.Ignore {
+						if a.p.FuncKey(cal) == ig {
+							skip = true
+						}
+					}
+					if skip {
+						continue
+					}
+					s := a.summary(cal)
+					if s == 1 {
+						continue
+					}
+					nst := 0
+					for k := 0; k < 4; k++ {
+						if s&(1<<k) == 0 {
+							continue
+						}
+						ce, cr := k>>1, k&1
+						nst |= crApply(st, func(e, r int) (int, int) { return e | ce, r | cr })
+					}
+					st = nst
+				}
+			}
+		}
+		return st
+	}
+	changed := true
+	for changed {
+		changed = false
+		for _, b := range fn.Blocks {
+			if b.Index != 0 {
+				acc := 0
+				for _, pr := range b.Preds {
+					acc |= out[pr.Index]
+				}
+				in[b.Index] = acc
+			}
+			if in[b.Index] == 0 {
+				continue
+			}
+			no := transfer(b, in[b.Index])
+			if no != out[b.Index] {
+				out[b.Index] = no
+				changed = true
+			}
+		}
+	}
+	res := 0
+	for _, b := range fn.Blocks {
+		if in[b.Index] == 0 || len(b.Instrs) == 0 {
+			continue
+		}
+		if _, ok := b.Instrs[len(b.Instrs)-1].(*ssa.Return); ok {
+			res |= out[b.Index]
+		}
+	}
+	if res == 0 {
+		res = 1
+	}
+	a.memo[fn] = res
+	return res
+}
+
+func runConsumeReset(p *Program, c *Collector, cs ConsumeResetSpec) {
+	fn := p.Func(cs.Func)
+	if fn == nil {
+		c.Fatal("E6: consume-reset: %s does not resolve", cs.Func)
+		return
+	}
+	a := &crAn{p: p, spec: cs, memo: map[*ssa.Function]int{}, prog: map[*ssa.Function]bool{}}
+	s := a.summary(fn)
+	key := "consume-reset:" + cs.Func + " " + cs.Effect + " => " + cs.Reset + "=" + cs.Value
+	switch {
+	case s&(4|8) == 0:
+		c.Ob(cs.Props, "E6.consume-reset", key, Violated, cs.What+": the effect "+cs.Effect+" never happens in "+shortFn(cs.Func)+" (anchor lost)", p.FuncPos(fn), false)
+	case s&4 != 0:
+		c.Ob(cs.Props, "E6.consume-reset", key, Violated, cs.What+": some path performs "+cs.Effect+" and returns without assigning "+cs.Value+" to "+cs.Reset+", so the pending state is consumed again by the next callback", p.FuncPos(fn), false)
+	default:
+		c.Ob(cs.Props, "E6.consume-reset", key, Discharged, cs.What+": every path that performs the effect also clears the pending state", p.FuncPos(fn), true)
 	}
 }
